@@ -49,11 +49,13 @@ struct Outcome {
     fired: Option<(u64, &'static str)>,
     pre: J,
     live: J,
+    live2: J,
     reopen: J,
     reopen_full: Option<J>,
 }
 
 async fn run_case(tpl: &Path, work: &Path, kind: &str, mode: Mode, reopen_init: bool) -> Outcome {
+
     copy_db(tpl, work);
     let level = level_of(kind);
     let s = open_level(work, 4, t(T_OPEN), true, level).await;
@@ -100,6 +102,18 @@ async fn run_case(tpl: &Path, work: &Path, kind: &str, mode: Mode, reopen_init: 
     }
     let (seen, names, fired) = kvt::disarm();
     let live = observe(&s).await;
+    // a following SUCCESSFUL transaction: nothing of the failed one may surface with it
+    // (only after a transaction that did NOT commit; the reopened database below therefore contains it)
+    let live2 = if res != "ok" {
+        let mut w = s.idms.proxy_write(t(T_TXN + 1)).await.expect("follow write");
+        for op in ops_of("follow") {
+            apply_op(&mut w.qs_write, op).expect("follow op");
+        }
+        w.commit().expect("follow commit");
+        observe(&s).await
+    } else {
+        json!({})
+    };
     drop(s);
     let reopen = observe_bare(work, t(T_REOPEN)).await;
     let reopen_full = if reopen_init {
@@ -108,7 +122,7 @@ async fn run_case(tpl: &Path, work: &Path, kind: &str, mode: Mode, reopen_init: 
     } else {
         None
     };
-    Outcome { res, seen, seen_ops, names, fired, pre, live, reopen, reopen_full }
+    Outcome { res, seen, seen_ops, names, fired, pre, live, live2, reopen, reopen_full }
 }
 
 pub fn run(o: &Opts) -> i32 {
@@ -150,7 +164,15 @@ pub fn run(o: &Opts) -> i32 {
         if kinds.iter().any(|k| level_of(k) != kanidmd_lib::prelude::DOMAIN_TGT_LEVEL) {
             make_template(&tpl_old, level_of("schema")).await;
         }
+        // what the follow-up transaction alone leaves (a transaction was begun and dropped before it)
+        let follow_tgt = run_case(&tpl_tgt, &work, "none", Mode::Abandon(0), false).await.live2;
+        let follow_old = if kinds.iter().any(|k| level_of(k) != kanidmd_lib::prelude::DOMAIN_TGT_LEVEL) {
+            run_case(&tpl_old, &work, "none14", Mode::Abandon(0), false).await.live2
+        } else {
+            json!({})
+        };
         for kind in &kinds {
+            let post2 = if level_of(kind) == kanidmd_lib::prelude::DOMAIN_TGT_LEVEL { follow_tgt.clone() } else { follow_old.clone() };
             let tpl = if level_of(kind) == kanidmd_lib::prelude::DOMAIN_TGT_LEVEL { tpl_tgt.clone() } else { tpl_old.clone() };
             // reference run: no fault; counts the storage points of this transaction
             let r = run_case(&tpl, &work, kind, Mode::Count, reopen_init).await;
@@ -185,7 +207,7 @@ pub fn run(o: &Opts) -> i32 {
                 let (fk, fname) = c.fired.unwrap_or((0, "none"));
                 tr.emit(&json!({"a":"fault","kind":kind,"k":k,"point":fname,"fired": if fk > 0 {1} else {0},
                     "phase": if k <= c.seen_ops && c.res == "operr" {"op"} else if c.res == "beginerr" {"begin"} else {"commit"},
-                    "res":c.res,"pre":c.pre,"live":c.live,"reopen":c.reopen,"post":post,"postd":post_disk,
+                    "res":c.res,"pre":c.pre,"live":c.live,"live2":c.live2,"post2":post2,"reopen":c.reopen,"post":post,"postd":post_disk,
                     "rf": if c.reopen_full.is_some() {1} else {0}, "reopenf": c.reopen_full.clone().unwrap_or(json!({}))}));
             }
         }
@@ -198,7 +220,7 @@ pub fn run(o: &Opts) -> i32 {
                 }
                 let c = run_case(&tpl_tgt, &work, "all", Mode::Abandon(j), reopen_init).await;
                 tr.emit(&json!({"a":"abandon","kind":"all","k":j,"point":"none","fired":0,"phase":"op","res":c.res,
-                    "pre":c.pre,"live":c.live,"reopen":c.reopen,"post":c.pre,"postd":disk_part(&c.pre),
+                    "pre":c.pre,"live":c.live,"live2":c.live2,"post2":follow_tgt.clone(),"reopen":c.reopen,"post":c.pre,"postd":disk_part(&c.pre),
                     "rf": if c.reopen_full.is_some() {1} else {0}, "reopenf": c.reopen_full.clone().unwrap_or(json!({}))}));
             }
         }
@@ -206,7 +228,7 @@ pub fn run(o: &Opts) -> i32 {
         if want("opfail", "badop", 0) {
             let c = run_case(&tpl_tgt, &work, "badop", Mode::Count, reopen_init).await;
             tr.emit(&json!({"a":"opfail","kind":"badop","k":0,"point":"none","fired":0,"phase":"op","res":c.res,
-                "pre":c.pre,"live":c.live,"reopen":c.reopen,"post":c.pre,"postd":disk_part(&c.pre),
+                "pre":c.pre,"live":c.live,"live2":c.live2,"post2":follow_tgt.clone(),"reopen":c.reopen,"post":c.pre,"postd":disk_part(&c.pre),
                 "rf": if c.reopen_full.is_some() {1} else {0}, "reopenf": c.reopen_full.clone().unwrap_or(json!({}))}));
         }
     });
